@@ -157,3 +157,58 @@ fn c04_process_data_yields_verified_ciphertext() {
     kani::cover!(r.is_ok() && extra_verify);
     core::mem::forget(r);
 }
+
+// ---- compressed read path: zstd (FFI) replaced by a mock decoder that returns ANY byte string of length 0..=3 or fails.
+fn any_small_vec() -> Vec<u8> {
+    let n: u8 = kani::any();
+    let (a, b, c): (u8, u8, u8) = (kani::any(), kani::any(), kani::any());
+    match n % 4 {
+        0 => Vec::new(),
+        1 => vec![a],
+        2 => vec![a, b],
+        _ => vec![a, b, c],
+    }
+}
+fn decode_all_stub<R: std::io::Read>(source: R) -> std::io::Result<Vec<u8>> {
+    core::mem::forget(source);
+    if kani::any() {
+        return Err(std::io::Error::from(std::io::ErrorKind::InvalidData));
+    }
+    Ok(any_small_vec())
+}
+// zstd::bulk::decompress(data, capacity): fails if the output exceeds the capacity, otherwise returns the output
+fn bulk_decompress_stub(data: &[u8], capacity: usize) -> std::io::Result<Vec<u8>> {
+    let _ = data;
+    let v = any_small_vec();
+    if kani::any() || v.len() > capacity {
+        core::mem::forget(v);
+        return Err(std::io::Error::from(std::io::ErrorKind::InvalidData));
+    }
+    Ok(v)
+}
+
+/// U04.3 compressed blobs ("compressed-length check after decompress"): whatever the decoder makes of an
+/// authentic ciphertext, a read that succeeds returns exactly `uncompressed_length` bytes.
+#[kani::proof]
+#[kani::unwind(6)]
+#[kani::stub(crate::error::RusticError::new, es::new_stub)]
+#[kani::stub(crate::error::RusticError::with_source, es::with_source_stub)]
+#[kani::stub(crate::error::RusticError::attach_context, es::attach_context_stub)]
+#[kani::stub(zstd::stream::decode_all, decode_all_stub)]
+#[kani::stub(zstd::bulk::decompress, bulk_decompress_stub)]
+fn c04_compressed_read_returns_exactly_the_recorded_length() {
+    let key = MockKey { fail_encrypt: false, fail_decrypt: kani::any() };
+    let (dbe, _log) = setup(0, key, false);
+    let data: [u8; 2] = [kani::any(), kani::any()];
+    let ul: u8 = kani::any();
+    kani::assume(ul >= 1 && ul <= 4);
+    let length = NonZeroU32::new(ul as u32).unwrap();
+    let r = dbe.read_encrypted_from_partial(&data, Some(length));
+    if let Ok(b) = &r {
+        assert!(data[0] == 0xEE && !key.fail_decrypt, "Ok only for authenticated ciphertext");
+        assert!(b.len() == ul as usize, "a successful compressed read returns exactly uncompressed_length bytes");
+    }
+    kani::cover!(r.is_ok());
+    kani::cover!(r.is_err() && data[0] == 0xEE && !key.fail_decrypt);
+    core::mem::forget(r);
+}
